@@ -192,6 +192,15 @@ Theorem C14_prop_sound : forall holds proxy d r x def,
 Proof. intros holds proxy d r x def. apply prop_rule_sound. apply robs_eqb_iff. Qed.
 Print Assumptions C14_prop_sound.
 
+(** "malformed rules are rejected" includes the default rule: a rule factory that exists over a default rule the
+    specification does not accept (misordered, a malformed step, no authenticator) fails the predicate, whatever
+    happens to the rule handed to it *)
+Theorem C14_prop_rejects_bad_default : forall holds proxy d r x,
+  scoped_default d = true -> spec_default_opt d = None ->
+  prop_rule (observe holds) robs_eqb proxy d r (Loaded x) = false.
+Proof. intros holds proxy d r x. apply prop_rule_bad_default. Qed.
+Print Assumptions C14_prop_rejects_bad_default.
+
 (** non-vacuity: a partial default rule (from which the authenticator, the
     authorizer and backtracking are inherited) and a rule defining only a
     conditional finalizer with an override; the GET request executes all three,
